@@ -193,6 +193,15 @@ def cases(tier: str, seed: int) -> list[dict]:
         {"a": "Key", "edit": dict(fy, kind="AttrAdd", key="comment", value="added"), "route": "copy"},
         {"a": "Key", "edit": dict(fy, kind="ChangeGeomDtype", dtype="float32"), "route": "inproc"},
         {"a": "Key", "edit": edits_for(w)[0], "route": "afteruse"}]})
+    # a mesh whose topology names an edge-node variable that is NOT in the file, next to a real edge-face table: the
+    # edge-face table belongs to the geometry, an edit of it changes the key
+    w = base_world("ugrid", rng)
+    w["enc"] = dict(w["enc"], supplied=["ef"], edge_dim="implied", dangling_en=True)
+    ef = {"var": "Mesh2_edge_faces", "pos": 1, "value": 0, "dtype": "", "new": "", "key": "", "class": ""}
+    out.append({"src": "gen", "world": w, "events": [
+        {"a": "Key", "edit": edits_for(w)[0], "route": "inproc"}, {"a": "Key", "edit": edits_for(w)[0], "route": "copy"},
+        {"a": "Key", "edit": dict(ef, kind="AttrAdd", key="comment", value="added"), "route": "inproc"},
+        {"a": "Key", "edit": dict(ef, kind="ChangeGeomDtype", dtype="float32"), "route": "copy"}]})
     # curvilinear grids whose bounds have to be derived, with a cell flanked by cells without coordinates
     for conv in ("cf2d", "shoc_simple"):
         w = GW.structured_world(conv, 3, 3, shape="rect", bounds=False, holes=[(1, 0), (1, 2)])
